@@ -179,3 +179,53 @@ def alias_same(base, synonyms, group, which, from_d, same, parent=None):
         d2[other] = v
         ok = ok and raises(lambda: from_d(d2) if parent is None else from_d(d2, parent))
     return ok
+
+
+# ------------------------------------------------------------------------------ copies and arguments are independent objects
+def copy_is_independent(kind, u):
+    """copy() gives an equal object that shares nothing mutable with the original: editing the copy (top level and nested parts)
+    leaves the original's dictionary unchanged"""
+    import copy as _c
+    if kind == 0:
+        a, to_d, same = mk_species(u, 3, 3, 2), species_to_dict, same_species
+        edit = lambda b: (setattr(b, "density", 9.0), b.D.__setitem__("e1", UnitValue(5.0, b.D["e1"].units)) if isinstance(b.D, dict) else None)
+    elif kind == 1:
+        a, to_d, same = mk_reaction(u, 1, 1, 1), reaction_to_dict, same_reaction
+        edit = lambda b: (setattr(b, "kr", 7.0), b.kf.__setitem__("e0", UnitValue(5.0, b.kf["e0"].units)) if isinstance(b.kf, dict) else None)
+    elif kind == 2:
+        a, to_d, same = mk_network(u, 1), rdnetwork_to_dict, same_network
+        edit = lambda b: (setattr(b.species[0], "density", 9.0), setattr(b.reactions[0], "kr", 7.0))
+    elif kind == 3:
+        a, to_d, same = mk_grid(u, 2, 1, 2, 0, 1, 0), rdgridspace_to_dict, same_space
+        edit = lambda b: (setattr(b, "cell_vol", 27.0), b.set_boundary_conditions({"x": "periodical", "y": "reflecting", "z": "periodical"}), b.cell_env.__setitem__(0, 1))
+    elif kind == 4:
+        a, to_d, same = mk_graph(u, 1, 1), rdgraphspace_to_dict, same_space
+        edit = lambda b: (setattr(b.nodes[0], "volume", 5.0), setattr(b.edges[0], "surface", 9.0))
+    elif kind == 5:
+        a, to_d, same = mk_system(u, 0, 1), rdsystem_to_dict, same_system
+        edit = lambda b: (b.set_state(0, 0, 99.0), b.set_chemostat(1, 0, 1 - int(b.get_chemostat(1, 0))), setattr(b.network.species[0], "density", 9.0))
+    else:
+        a, to_d, same = mk_script(u, 1, 1, 2, 3), rdscript_to_dict, same_script
+        edit = lambda b: (setattr(b, "time_step", 0.5), b.system.set_state(0, 0, 99.0), b.t_sample.value.__setitem__(1, 0.75))
+    before = _c.deepcopy(to_d(a))
+    b = a.copy()
+    if b is a or not same(a, b) or to_d(b) != before:
+        return False
+    edit(b)
+    return to_d(a) == before and to_d(b) != before
+
+
+def units_argument_not_aliased(kind):
+    """the units system handed to a constructor (or a setter) is copied: editing the caller's object afterwards changes nothing in the model"""
+    us_ = UnitsSystem("mm", "min", "mmol")
+    ref = UnitsSystem("mm", "min", "mmol")
+    obj = [lambda: Species("A", density=1.0, units_system=us_), lambda: Reaction("A -> B", kf=1.0, units_system=us_),
+           lambda: RDNetwork(species=[Species("A")], reactions=[], units_system=us_), lambda: RDGridSpace(w=2, cell_vol=8.0, units_system=us_),
+           lambda: RDGraphSpace(nodes=[RDGraphSpaceNode(1.0, 0, us_)], edges=[], units_system=us_), lambda: RDSystem(RDNetwork(species=[Species("A")], reactions=[]), RDGridSpace(), units_system=us_),
+           lambda: RDScript(RDSystem(RDNetwork(species=[Species("A")], reactions=[]), RDGridSpace()), [0, 1.0], units_system=us_)][kind]()
+    d0 = unitssystem_to_dict(obj.units_system)
+    us_["space"] = "km"
+    us_["quantity"] = "molecule"
+    if kind == 4 and obj.nodes[0].units_system != ref:
+        return False
+    return obj.units_system == ref and unitssystem_to_dict(obj.units_system) == d0 and obj.units_system is not us_
